@@ -28,9 +28,20 @@ type pending struct {
 }
 
 type runner struct {
-	a     vh.Args
-	res   *vh.Result
-	batch []pending
+	a      vh.Args
+	res    *vh.Result
+	batch  []pending
+	perKey map[string]int
+}
+
+// keep at most a few mismatches per key so that every distinct key is represented in the
+// (bounded) result list
+func (r *runner) room(key string) bool {
+	if r.perKey == nil {
+		r.perKey = map[string]int{}
+	}
+	r.perKey[key]++
+	return r.perKey[key] <= 6
 }
 
 // ask queues one model line; check receives the model's answer (text after "KIND id ").
@@ -71,10 +82,16 @@ func (r *runner) flush() {
 }
 
 func (r *runner) corr(id, key, detail, cse, what string, propfail bool) {
+	if !r.room("corr/" + key) {
+		return
+	}
 	r.res.Mismatch(vh.Mismatch{ID: id, Kind: "corr", Key: key, Detail: detail, Case: cse, PropFail: propfail, What: what})
 }
 
 func (r *runner) prop(id, key, detail, cse, what string) {
+	if !r.room("prop/" + key) {
+		return
+	}
 	r.res.Mismatch(vh.Mismatch{ID: id, Kind: "prop", Key: key, Detail: detail, Case: cse, PropFail: true, What: what})
 }
 
@@ -172,7 +189,7 @@ func main() {
 		c = counts{hash: 800, ped: 300, pedOps: 50, intc: 120, intOps: 50, eg: 200, egOps: 50, ext: 1500, equiv: 600, tamperPerProgram: 6}
 	}
 	if a.Search {
-		c = counts{hash: 1500, ped: 150, pedOps: 20, intc: 40, intOps: 12, eg: 100, egOps: 20, ext: 400, equiv: 300, tamperPerProgram: 4}
+		c = counts{hash: 1500, ped: 150, pedOps: c.pedOps, intc: 40, intOps: c.intOps, eg: 100, egOps: c.egOps, ext: 400, equiv: 300, tamperPerProgram: 4}
 	}
 
 	if a.Replay != "" {
@@ -212,10 +229,6 @@ func main() {
 func replay(r *runner) {
 	b, err := os.ReadFile(r.a.Replay)
 	must(err)
-	c := counts{hash: 0, ped: 0, pedOps: 10, intOps: 10, egOps: 10, tamperPerProgram: 6}
-	if r.a.Tier == "thorough" {
-		c.pedOps, c.intOps, c.egOps = 50, 50, 50
-	}
 	for _, line := range strings.Split(string(b), "\n") {
 		if strings.HasPrefix(line, "seed: ") {
 			if s, err := strconv.ParseInt(strings.TrimSpace(strings.TrimPrefix(line, "seed: ")), 10, 64); err == nil {
@@ -223,6 +236,15 @@ func replay(r *runner) {
 				r.res.Seed = s
 			}
 		}
+		if strings.HasPrefix(line, "tier: ") { // program lengths depend on the tier the case was found in
+			if t := strings.TrimSpace(strings.TrimPrefix(line, "tier: ")); t == "quick" || t == "thorough" {
+				r.a.Tier = t
+			}
+		}
+	}
+	c := counts{hash: 0, ped: 0, pedOps: 10, intOps: 10, egOps: 10, tamperPerProgram: 6}
+	if r.a.Tier == "thorough" {
+		c.pedOps, c.intOps, c.egOps = 50, 50, 50
 	}
 	for _, line := range strings.Split(string(b), "\n") {
 		if !strings.HasPrefix(line, "case: ") {
